@@ -1,5 +1,6 @@
 """C14 — Concertina scheduler step lemmas (common/concertina_lib.py)."""
 from vlib.units import unit
+from vlib import mk
 
 F = 'common/concertina_lib.py'
 
@@ -20,7 +21,7 @@ SAMEITER = ("a in self.action_iteration and "
 
 
 def mk_concertina(mod, queue, counts, reps, stop_its=(), complete=()):
-  c = mod.Concertina.__new__(mod.Concertina)
+  c = mk.concertina(mod)
   its = {'it1': ['A', 'B'], 'it2': ['C', 'D']}
   c.action_iteration = {a: it for it, ms in its.items() for a in ms}
   c.iteration_repetitions = dict(reps)
